@@ -643,3 +643,19 @@ H("endpoint_stateless_reset_native", ["C03", "C07"], "replay-only", "endpoint::s
 H("token_from_header_native", ["C14"], "replay-only", "token::from_header_native",
   [("retry", "bool"), ("same_ip", "bool"), ("same_port", "bool"), ("age", "u16"), ("lifetime", "u16"), ("log_ok", "bool"), ("corrupt", "bool")], 4, [],
   ["IncomingToken::from_header", "Token::encode", "Token::decode"], "native replay body of E2 query e2_token_from_header")
+
+# ------------------------------------------------------------------ quinn-udp (C19)
+H("udp_cmsg_encode_iter_roundtrip", ["C19"], "quick", "cmsg::encode_iter_roundtrip",
+  [("v6", "bool"), ("use_tos", "bool"), ("tos", "i32"), ("use_seg", "bool"), ("seg", "u16"), ("use_pktinfo", "bool"), ("addr4", "u32"), ("addr6", "[u8; 16]"), ("ifindex", "u32")], 20,
+  ["reached", "TOS/TCLASS", "UDP_SEGMENT", "PKTINFO"],
+  ["cmsg::Encoder::new", "cmsg::Encoder::push", "cmsg::Encoder::finish (Drop)", "cmsg::Iter::new", "cmsg::Iter::next", "cmsg::decode", "libc::CMSG_FIRSTHDR/NXTHDR/DATA/LEN/SPACE"],
+  "every subset of {TOS|TCLASS c_int, UDP_SEGMENT u16, in_pktinfo|in6_pktinfo} in prepare_msg's order, every value; 96-byte control buffer; Kani pointer checks on",
+  crate="quinn_udp")
+H("udp_decode_recv_meta", ["C19"], "quick", "unix::decode_recv_meta",
+  [("len", "u16"), ("use_tos", "bool"), ("tos", "u8"), ("use_gro", "bool"), ("gro", "u16"), ("use_pktinfo", "bool"), ("dst", "u32"), ("ifindex", "u32"), ("port", "u16"), ("src", "u32")], 20,
+  ["reached", "ECN", "GRO stride", "PKTINFO"],
+  ["decode_recv", "ControlMetadata::decode", "decode_socket_addr", "cmsg::Iter", "cmsg::decode", "EcnCodepoint::from_bits"],
+  "every subset of {IP_TOS u8, UDP_GRO c_int, in_pktinfo}, every value, AF_INET source address", crate="quinn_udp")
+H("udp_effective_segment_size", ["C19"], "quick", "effective_segment_size",
+  [("len", "u16"), ("has_seg", "bool"), ("seg", "usize")], 4, ["plain send", "segmented"],
+  ["Transmit::effective_segment_size"], "every payload length: u16, every segment size: usize", crate="quinn_udp")
